@@ -276,6 +276,19 @@ theorem paragraph_char_split_spec (c : UInt8) (hc : c < 0x80) (h32 : c ≠ 32) (
 -- non-vacuity: "a:b\r\nc:d" with FS=":" in paragraph mode gives a, b (CR dropped), c, d
 example : split (fun (_ : Unit) _ => []) true [58] none [97, 58, 98, 13, 10, 99, 58, 100] = [[97], [98], [99], [100]] := by decide
 
+/-- The same for ANY one-character FS, a multi-byte character included (what it cannot say for a multi-byte FS is that the
+FS bytes are absent from a field: only whole occurrences are removed). -/
+theorem paragraph_onechar_split_spec (fs : Bytes) (h1 : runeCount fs = 1) (h32 : fs ≠ [32]) (re : Option ρ) (line : Bytes)
+    (hl : line ≠ []) :
+    split M true fs re line = (splitSep fs line).flatMap (fun f => (splitSep [10] f).map trimCR) ∧
+    ∀ f ∈ split M true fs re line, (10 : UInt8) ∉ f ∧ ∀ x ∈ f, x ∈ line :=
+  ⟨split_paragraph_onechar M fs h1 h32 re line hl, split_paragraph_onechar_clean M fs h1 h32 re line hl⟩
+
+-- non-vacuity: FS="é" (two bytes, one character) in paragraph mode: "aé b\ncéd" gives a, " b", c, d
+example : runeCount [0xC3, 0xA9] = 1 ∧
+    split (fun (_ : Unit) _ => []) true [0xC3, 0xA9] none [97, 0xC3, 0xA9, 32, 98, 10, 99, 0xC3, 0xA9, 100] = [[97], [32, 98], [99], [100]] := by
+  decide
+
 end GoawkModel.C06.Props
 
 /-! ## Pinned source text (regenerated tie; extract/pins.go, tools/repin.py)
